@@ -388,6 +388,9 @@ class CompileThenIndex(object):
             for first in (0, 1):
                 for ident in (0, 1):
                     yield {'sib': block['sib'], 'n': n, 'sibling_first': first, 'ident': ident}
+                # a compliance statement with groups, one whose MODULE part names no group at all, one naming another module
+                for compl in ('groups', 'bare', 'other-module'):
+                    yield {'sib': block['sib'], 'n': n, 'sibling_first': first, 'ident': 1, 'compl': compl}
 
     def run_case(self, case):
         from pysmi.compiler import MibCompiler
@@ -407,8 +410,17 @@ class CompileThenIndex(object):
             imports += ['MODULE-IDENTITY']
             ident = ('vendorModule MODULE-IDENTITY LAST-UPDATED "202001010000Z" ORGANIZATION "o" CONTACT-INFO "c" DESCRIPTION "d" '
                      '::= { vendorRoot 9 }\n')
+        confimp = ''
+        if case.get('compl'):
+            confimp = ' MODULE-COMPLIANCE, OBJECT-GROUP FROM SNMPv2-CONF'
+            imports += ['OBJECT-TYPE']
+            part = {'groups': 'MODULE MANDATORY-GROUPS { vendorGroup }', 'bare': 'MODULE -- this module',
+                    'other-module': 'MODULE OTHER-MIB'}[case['compl']]
+            ident += ('vendorObj OBJECT-TYPE SYNTAX INTEGER MAX-ACCESS read-only STATUS current DESCRIPTION "d" ::= { vendorRoot 2 }\n'
+                      'vendorGroup OBJECT-GROUP OBJECTS { vendorObj } STATUS current DESCRIPTION "d" ::= { vendorRoot 3 }\n'
+                      'vendorCompl MODULE-COMPLIANCE STATUS current DESCRIPTION "d" %s\n ::= { vendorRoot 4 }\n' % part)
         body = (sibtext + vendor + ident) if case['sibling_first'] else (vendor + ident + sibtext)
-        text = 'VENDOR-MIB DEFINITIONS ::= BEGIN\nIMPORTS %s FROM SNMPv2-SMI;\n%sEND\n' % (', '.join(imports), body)
+        text = 'VENDOR-MIB DEFINITIONS ::= BEGIN\nIMPORTS %s FROM SNMPv2-SMI%s;\n%sEND\n' % (', '.join(imports), confimp, body)
         base = os.environ.get('VERIF_TMP') or ('/dev/shm' if os.path.isdir('/dev/shm') else None)
         d = tempfile.mkdtemp(prefix='mcC18', dir=base)
         try:
@@ -434,6 +446,8 @@ class CompileThenIndex(object):
                     vs.append(('%s|listed-under-a-non-enterprise-oid' % sig, '%s: %r' % (k, mods)))
             if case['ident'] and 'VENDOR-MIB' not in (doc.get('identity', {}).get(ent + '.9') or []):
                 vs.append(('%s|not-listed-under-its-identity' % sig, repr(doc.get('identity'))))
+            if case.get('compl') and 'VENDOR-MIB' not in (doc.get('compliance', {}).get(ent + '.4') or []):
+                vs.append(('%s|not-listed-under-its-compliance-oid|%s' % (sig, case['compl']), '%r\n%s' % (doc.get('compliance'), text)))
             oids = doc.get('oids', {})
             for o in (ent, ent + '.1'):
                 if not any(is_prefix(k, o) and 'VENDOR-MIB' in v for k, v in oids.items()):
